@@ -642,9 +642,11 @@ func (scDemux) Run(t *testing.T, prop string, seed uint64, cfgRaw json.RawMessag
 		w.YieldP = cfg.YieldP
 		s := w.S.S
 		must(s.AddAddress(1, ipv4.ProtocolNumber, dmLocal[2]), "second address")
+		w.S.Link.Addrs = append(w.S.Link.Addrs, dmLocal[2])
 		w.link2 = w.AddLink("S2", 1500, 0, "", -1)
 		must(s.CreateNIC(2, w.link2.id), "NIC 2")
 		must(s.AddAddress(2, ipv4.ProtocolNumber, dmLocal[3]), "NIC2 address")
+		w.link2.Addrs = append(w.link2.Addrs, dmLocal[3])
 		s.SetRouteTable([]tcpip.Route{
 			{Destination: "\x0a\x01\x00\x00", Mask: "\xff\xff\x00\x00", NIC: 2},
 			{Destination: "\x00\x00\x00\x00", Mask: "\x00\x00\x00\x00", NIC: 1},
